@@ -10,6 +10,7 @@ fn usage() -> ! {
 }
 
 fn main() {
+    mvmon::util::tune_allocator();
     mvmon::util::install_panic_hook();
     let args: Vec<String> = std::env::args().collect();
     if args.len() < 2 {
@@ -87,6 +88,10 @@ fn main() {
                 println!("REPLAY-OK property={} (no violation reproduced; evaluations={})", id, rep.evaluations);
             }
             std::process::exit(if bad { 1 } else { 0 });
+        }
+        "iter-src" => {
+            let stack: Vec<u64> = args[3..].iter().map(|s| s.parse().expect("stack value")).collect();
+            mvmon::debugcmd::iter_src(&args[2], &stack);
         }
         "run-src" => {
             // mvmon run-src <file.masm> [--prove] [--kernel k.masm] [stack values top-first...]
